@@ -10,6 +10,7 @@ import UnifexModel.Driver.Entries.Scope
 import UnifexModel.Driver.Entries.Bulk
 import UnifexModel.Driver.Entries.AnyObj
 import UnifexModel.Driver.Entries.Ctx
+import UnifexModel.Driver.Entries.SpawnFuture
 
 namespace Unifex.Driver
 
@@ -25,6 +26,7 @@ def table : List ModelEntries :=
   , Entries.bulk
   , Entries.anyobjEntries
   , Entries.ctxEntries
+  , Entries.spawnfuture
   ]
 
 def lookup (m c : String) : Option Entry :=
